@@ -30,6 +30,7 @@ type thread struct {
 	blocked  any // object the thread waits for (nil = enabled)
 	started  bool
 	panicVal any
+	chanWait bool // blocked in a channel operation (vchan): a spawned thread left like this when everything else has finished is a leaked goroutine, not a deadlock
 }
 
 // Sched is one execution under the controlled scheduler.
@@ -45,6 +46,9 @@ type Sched struct {
 	MaxPoints int
 	wg        sync.WaitGroup
 	Spawned   int // goroutines started by the code under test through Go (rewritten `go` statements)
+	nMain     int // threads 0..nMain-1 are the scenario's own bodies
+	Leaked    int // spawned threads still parked in a channel operation when every other thread had finished
+	ChanOps   int // channel operations performed under the scheduler (vchan)
 }
 
 type abortSentinel struct{}
@@ -65,6 +69,7 @@ func Run(choose Chooser, bodies ...func()) *Sched {
 	for i := range bodies {
 		s.threads = append(s.threads, &thread{id: i, wake: make(chan struct{}, 1)})
 	}
+	s.nMain = len(bodies)
 	mu.Lock()
 	if active.Load() != nil {
 		mu.Unlock()
@@ -170,7 +175,24 @@ func (s *Sched) switchFrom(running int, op string) {
 			}
 		}
 		if !all {
-			s.Deadlock = true
+			// only goroutines started by the code under test are left, each parked in a channel
+			// operation nobody will complete: in Go that is a leaked goroutine (a worker waiting for
+			// jobs), not a deadlock of the calls under test.
+			leakOnly, leaked := true, 0
+			for _, t := range s.threads {
+				if t.done {
+					continue
+				}
+				if t.id < s.nMain || !t.chanWait {
+					leakOnly = false
+				}
+				leaked++
+			}
+			if leakOnly {
+				s.Leaked = leaked
+			} else {
+				s.Deadlock = true
+			}
 			s.abort = true
 			if running >= 0 {
 				// unwind this thread; its exit path wakes the next parked thread
@@ -266,6 +288,15 @@ func (s *Sched) Block(obj any, op string) {
 	me := s.cur
 	s.threads[me].blocked = obj
 	s.switchFrom(me, op)
+}
+
+// BlockChan is Block for a channel operation (see Leaked).
+func (s *Sched) BlockChan(obj any, op string) {
+	me := s.cur
+	s.threads[me].blocked = obj
+	s.threads[me].chanWait = true
+	s.switchFrom(me, op)
+	s.threads[me].chanWait = false
 }
 
 // Unblock makes every thread waiting for obj enabled again.
